@@ -25,6 +25,10 @@ impl Tier {
     }
 }
 
+/// Properties whose violations end up in `findings` (None = all). Set once per process by the
+/// driver (`check <ID>`: that property; `replay`: the replay file's property).
+pub static FOCUS: std::sync::Mutex<Option<Vec<String>>> = std::sync::Mutex::new(None);
+
 /// One recorded decision. `n == 0` marks span boundaries: tag "<name" opens, ">" closes.
 #[derive(Clone, Debug, Serialize, Deserialize, PartialEq, Eq)]
 pub struct Decision(pub String, pub u32, pub u32);
@@ -381,6 +385,14 @@ impl RunCtx {
     }
 
     pub fn violation(&self, property: &str, clause: &str, key: &str, detail: String) {
+        // A check of property P must not have its runs cut short by a violation of another
+        // property Q (which the check of Q reports): outside the focus a violation is only noted.
+        if let Some(focus) = FOCUS.lock().unwrap().as_ref() {
+            if !focus.iter().any(|p| p == property) {
+                self.note(&format!("violation_of_other_property {property}/{clause} [{key}]"), detail);
+                return;
+            }
+        }
         let (seq, t) = {
             let h = self.hist.lock().unwrap();
             (h.seq, self.elapsed_ns.load(Ordering::Relaxed) / 1_000_000)
